@@ -374,6 +374,17 @@ func init() {
 		lf.raw("/-- the condition under which ptt.pwcuStart refuses the (uid, user-id) pair -/\n")
 		lf.raw("def pwcuStartRefuseExpr : String := " + rfLeanStr(cmp) + "\n")
 		lf.raw("def pwcuStartComparesExact : Bool := " + rfBool(cmp == "types.Cstrcmp(userID[:], user.UserID[:]) != 0") + "\n")
+		// ptt.passwdSyncUpdate, the funnel of every whole-record store of the ptt layer: does it re-sync Money?
+		resync := false
+		ast.Inspect(rfFuncDecl(pp, "passwdSyncUpdate").Body, func(n ast.Node) bool {
+			if as, ok := n.(*ast.AssignStmt); ok && len(as.Lhs) == 1 && len(as.Rhs) == 1 &&
+				rfExprText(pp, as.Lhs[0]) == "user.Money" && rfExprText(pp, as.Rhs[0]) == "cache.MoneyOf(uid)" {
+				resync = true
+			}
+			return true
+		})
+		lf.raw("/-- ptt.passwdSyncUpdate executes `user.Money = cache.MoneyOf(uid)` before cmbbs.PasswdUpdate -/\n")
+		lf.raw("def storeFunnelResyncsMoney : Bool := " + rfBool(resync) + "\n")
 		lf.write(out)
 	})
 }
